@@ -321,6 +321,66 @@ def seed_sweep_replay(call: str) -> Dict:
     return {'ok': True, 'exc': None}
 
 
+# ---- family sweep over real hash seeds (validation of the "only through set/dict iteration of the
+# configuration" assumption: sets the library builds internally are outside the permutation model) -------
+_FAMILY_CHILD = r'''
+import sys, json, hashlib
+sys.path.insert(0, %(verif)r)
+from vf import family as fam
+from dznpy.adv_shell import Builder
+out = {}
+for i, (case, pc) in enumerate(fam.VALID):
+    res = Builder().build(fam.make_configuration(case, pc))
+    out[i] = hashlib.sha256(repr([(f.filename, f.contents, f.hash) for f in res.files]).encode()).hexdigest()
+print('@@' + json.dumps(out))
+'''
+
+
+def _family_digests(seed: int) -> Dict[str, str]:
+    verif = os.path.dirname(os.path.dirname(os.path.abspath(__file__)))
+    env = dict(os.environ, PYTHONHASHSEED=str(seed), PYTHONPATH=verif)
+    proc = subprocess.run([sys.executable, '-c', _FAMILY_CHILD % {'verif': verif}], capture_output=True, text=True,
+                          env=env, timeout=900, check=False)
+    line = next((ln for ln in proc.stdout.splitlines() if ln.startswith('@@')), None)
+    if line is None:
+        raise RuntimeError('family build under PYTHONHASHSEED=%d failed: %s' % (seed, proc.stderr[-300:]))
+    return json.loads(line[2:])
+
+
+def h_seed_pair(ci: int, seed_a: int, seed_b: int) -> bool:
+    """Family case ci built in two fresh interpreters under two hash seeds gives identical files."""
+    return _family_digests(seed_a)[str(ci)] == _family_digests(seed_b)[str(ci)]
+
+
+def extra(tier, seed, scratch, log):
+    from concurrent.futures import ThreadPoolExecutor
+    from vf.spec import Ob
+    from vf import family as fam
+    seeds = list(range(8 if tier == 'quick' else 32))
+    ob = Ob(name='family_hash_seed_sweep', engine='native', kind='validation', claim=False, verdict='confirmed',
+            module='props.c08', bounds='all %d valid family cases x PYTHONHASHSEED=0..%d, one fresh interpreter '
+            'per seed' % (len(fam.VALID), seeds[-1]))
+    try:
+        with ThreadPoolExecutor(max_workers=8) as pool:
+            digs = list(pool.map(_family_digests, seeds))
+    except Exception as exc:  # pylint: disable=broad-except
+        ob.verdict, ob.detail = 'inconclusive', str(exc)[:300]
+        return [ob]
+    for ci in sorted(digs[0], key=int):
+        for k, d in enumerate(digs[1:], 1):
+            if d[ci] != digs[0][ci]:
+                ob.verdict = 'refuted'
+                ob.call = f'h_seed_pair({ci}, {seeds[0]}, {seeds[k]})'
+                ob.detail = (f'family case {fam.VALID[int(ci)][0].label}: the generated files differ between '
+                             f'PYTHONHASHSEED={seeds[0]} and {seeds[k]}')
+                log('[native] ' + ob.detail)
+                return [ob]
+    ob.paths = ob.validated = len(digs[0]) * len(seeds)
+    ob.detail = f'{len(digs[0])} cases x {len(seeds)} seeds: identical files'
+    log('[native] family_hash_seed_sweep: ' + ob.detail)
+    return [ob]
+
+
 # ---- MD5 clause (exploration) -----------------------------------------------------------------------
 
 def _md5_ref(data: bytes) -> str:
